@@ -19,15 +19,18 @@ func zzRunes(nr int) ([]byte, []int) {
 		switch zz.NondetChoice("runeclass", 3) {
 		case 0:
 			b := zz.NondetByte("r1")
-			zz.Assume(b >= 0x20 && b <= 0x7E)
+			zz.Assume(zz.ByteRange(b, 0x20, 0x7E))
 			line = append(line, b)
 		case 1:
 			b0, b1 := zz.NondetByte("r2a"), zz.NondetByte("r2b")
-			zz.Assume(b0 >= 0xC2 && b0 <= 0xDF && b1 >= 0x80 && b1 <= 0xBF)
+			zz.Assume(zz.ByteRange(b0, 0xC2, 0xDF))
+			zz.Assume(zz.ByteRange(b1, 0x80, 0xBF))
 			line = append(line, b0, b1)
 		default:
 			b0, b1, b2 := zz.NondetByte("r3a"), zz.NondetByte("r3b"), zz.NondetByte("r3c")
-			zz.Assume(b0 >= 0xE1 && b0 <= 0xEC && b1 >= 0x80 && b1 <= 0xBF && b2 >= 0x80 && b2 <= 0xBF)
+			zz.Assume(zz.ByteRange(b0, 0xE1, 0xEC))
+			zz.Assume(zz.ByteRange(b1, 0x80, 0xBF))
+			zz.Assume(zz.ByteRange(b2, 0x80, 0xBF))
 			line = append(line, b0, b1, b2)
 		}
 		bounds = append(bounds, len(line))
@@ -79,7 +82,7 @@ func zzMakeLines(NL, LL int) *zzFlLines {
 		}
 		b := zz.NondetBytesN("line", ln)
 		for _, x := range b {
-			zz.Assume(x >= 0x20 && x <= 0x7E) // printable ASCII; rune slicing is C06FixedSlice's subject
+			zz.Assume(zz.ByteRange(x, 0x20, 0x7E)) // printable ASCII; rune slicing is C06FixedSlice's subject
 		}
 		f.lines = append(f.lines, b)
 		f.input = append(f.input, b...)
